@@ -46,6 +46,19 @@ func (x *vc) call(fr *frame, st *state, in ssa.CallInstruction, pos string) Val 
 		if ic := x.ifaceContract(cc); ic != nil {
 			return x.applyContract(fr, st, ic, nil, cc.Method.Type().(*types.Signature), append([]Val{recv}, args...), []string{"recv"}, pos, "iface:"+cc.Method.Name(), resT)
 		}
+		if cc.Method.FullName() == "(reflect.Type).Kind" {
+			x.needDecl("(declare-fun rtype_id (Iface) Int)")
+			return Val{T: x.define("rtkind", sInt, app("kind_of_type", app("rtype_id", recv.T))), Typ: resT}
+		}
+		if cc.Method.FullName() == "(reflect.Type).Comparable" {
+			// documented: false for slices, maps and functions (and for structs/arrays containing them); pure
+			x.needDecl("(declare-fun rtype_id (Iface) Int)")
+			x.trusted["reflect.Type.Comparable: true only for types whose kind is not Slice, Map or Func (documented); values of comparable struct/array/interface types are assumed hashable (they are unless they hold an unhashable dynamic value)"] = true
+			r := x.freshVal("comparable", types.Typ[types.Bool], st)
+			kd := app("kind_of_type", app("rtype_id", recv.T))
+			x.assume(st.guard, implies(r.T, and(not(eq(kd, "19")), not(eq(kd, "21")), not(eq(kd, "23")))))
+			return r
+		}
 		x.havocCall(st, resT, "interface method "+cc.Method.FullName(), true)
 		return x.freshResult(st, resT, "invoke_"+cc.Method.Name())
 	}
